@@ -487,11 +487,14 @@ func checkOrder(in Input, reverse bool) (f *fail, wantErr bool) {
 				if x.Kind == "not-supported" && in.Ignore {
 					continue // the target is retained and everything else is unchanged
 				}
+				if n.gone {
+					// a further not-supported on a node this deviation already removed cannot
+					// be applied (other kinds after not-supported are not generated)
+					wantErr = true
+					break
+				}
 				if apply(n, x, dc[d.Target]) {
 					wantErr = true
-				}
-				if n.gone {
-					break
 				}
 			}
 			if dc[d.Target]["err"] {
@@ -789,9 +792,6 @@ func run(c *core.Ctx) {
 				continue
 			}
 			for _, d2 := range ds {
-				if d1.Kind == "not-supported" && d2.Kind == "not-supported" {
-					continue
-				}
 				if (d1.Kind == "not-supported") != (d2.Kind == "not-supported") {
 					continue // not-supported together with other deviate statements is invalid and not generated
 				}
